@@ -218,12 +218,39 @@ pub mod __verif {
         ATOMIC_LOG.with(|l| l.borrow_mut().as_mut().map(core::mem::take).unwrap_or_default())
     }
 
-    /// Runs `f` (a snapshot) without recording its own loads.
+    /// Runs `f` (a snapshot) without recording its own loads and without calling the preemption
+    /// hook for them.
     pub(crate) fn unrecorded<R>(f: impl FnOnce() -> R) -> R {
         let saved = ATOMIC_LOG.with(|l| l.borrow_mut().take());
+        let hook = PREEMPT.with(|p| p.borrow_mut().take());
         let r = f();
+        PREEMPT.with(|p| *p.borrow_mut() = hook);
         ATOMIC_LOG.with(|l| *l.borrow_mut() = saved);
         r
+    }
+
+    std::thread_local! {
+        static PREEMPT: RefCell<Option<Box<dyn FnMut()>>> = RefCell::new(None);
+    }
+
+    /// Installs (or removes) the preemption hook of the current thread: a callback that runs
+    /// immediately before every atomic operation on a state word. While it runs it is not
+    /// installed, so the operations it performs itself do not call it.
+    pub fn set_preempt_hook(hook: Option<Box<dyn FnMut()>>) {
+        PREEMPT.with(|p| *p.borrow_mut() = hook);
+    }
+
+    fn preempt() {
+        let hook = PREEMPT.with(|p| p.borrow_mut().take());
+        if let Some(mut hook) = hook {
+            hook();
+            PREEMPT.with(|p| {
+                let mut p = p.borrow_mut();
+                if p.is_none() {
+                    *p = Some(hook);
+                }
+            });
+        }
     }
 
     fn log(op: AtomicOp) {
@@ -235,7 +262,8 @@ pub mod __verif {
     }
 
     /// `core::sync::atomic` with an `AtomicUsize` that can record its operations. Behaviour is
-    /// that of the wrapped atomic; nothing is recorded unless `record_atomics(true)` was called.
+    /// that of the wrapped atomic; nothing is recorded unless `record_atomics(true)` was called,
+    /// and nothing runs before an operation unless `set_preempt_hook` installed something.
     pub mod atomic {
         pub use core::sync::atomic::Ordering;
         use core::sync::atomic::AtomicUsize as Inner;
@@ -269,6 +297,7 @@ pub mod __verif {
 
             /// See `core::sync::atomic::AtomicUsize::load`.
             pub fn load(&self, o: Ordering) -> usize {
+                super::preempt();
                 let r = self.0.load(o);
                 self.rec("load", [0, 0], format!("{:?}", o), Some(r), true);
                 r
@@ -276,12 +305,14 @@ pub mod __verif {
 
             /// See `core::sync::atomic::AtomicUsize::store`.
             pub fn store(&self, v: usize, o: Ordering) {
+                super::preempt();
                 self.0.store(v, o);
                 self.rec("store", [v, 0], format!("{:?}", o), None, true);
             }
 
             /// See `core::sync::atomic::AtomicUsize::compare_exchange`.
             pub fn compare_exchange(&self, a: usize, b: usize, s: Ordering, f: Ordering) -> Result<usize, usize> {
+                super::preempt();
                 let r = self.0.compare_exchange(a, b, s, f);
                 self.rec("cas", [a, b], format!("{:?}/{:?}", s, f), Some(r.unwrap_or_else(|x| x)), r.is_ok());
                 r
@@ -289,6 +320,7 @@ pub mod __verif {
 
             /// See `core::sync::atomic::AtomicUsize::compare_exchange_weak`.
             pub fn compare_exchange_weak(&self, a: usize, b: usize, s: Ordering, f: Ordering) -> Result<usize, usize> {
+                super::preempt();
                 let r = self.0.compare_exchange_weak(a, b, s, f);
                 self.rec("casw", [a, b], format!("{:?}/{:?}", s, f), Some(r.unwrap_or_else(|x| x)), r.is_ok());
                 r
@@ -296,6 +328,7 @@ pub mod __verif {
 
             /// See `core::sync::atomic::AtomicUsize::fetch_add`.
             pub fn fetch_add(&self, v: usize, o: Ordering) -> usize {
+                super::preempt();
                 let r = self.0.fetch_add(v, o);
                 self.rec("fadd", [v, 0], format!("{:?}", o), Some(r), true);
                 r
@@ -303,6 +336,7 @@ pub mod __verif {
 
             /// See `core::sync::atomic::AtomicUsize::fetch_sub`.
             pub fn fetch_sub(&self, v: usize, o: Ordering) -> usize {
+                super::preempt();
                 let r = self.0.fetch_sub(v, o);
                 self.rec("fsub", [v, 0], format!("{:?}", o), Some(r), true);
                 r
@@ -310,6 +344,7 @@ pub mod __verif {
 
             /// See `core::sync::atomic::AtomicUsize::fetch_or`.
             pub fn fetch_or(&self, v: usize, o: Ordering) -> usize {
+                super::preempt();
                 let r = self.0.fetch_or(v, o);
                 self.rec("for", [v, 0], format!("{:?}", o), Some(r), true);
                 r
@@ -317,6 +352,7 @@ pub mod __verif {
 
             /// See `core::sync::atomic::AtomicUsize::fetch_and`.
             pub fn fetch_and(&self, v: usize, o: Ordering) -> usize {
+                super::preempt();
                 let r = self.0.fetch_and(v, o);
                 self.rec("fand", [v, 0], format!("{:?}", o), Some(r), true);
                 r
